@@ -211,6 +211,80 @@ def check(an, rep, tier):
     _solve_via(prog, rep, 'als._optimize_core')
     _solve_via(prog, rep, 'als._optimize_core_adaptive')
     _lstsq_weights(prog, rep)
+    # --- P-refresh: on every path through one step of a sweep the interface
+    # of the NEXT core (index k +- 1 of an interface list) is recomputed after
+    # the core update (no path may skip it: the following cores would be
+    # solved against a stale interface)
+    for qual_ in ('als.als', 'als_func.als_func'):
+        fn_ = prog.func(qual_)
+
+        def is_update(st):
+            return any(isinstance(c, ast.Call) and
+                       (prog.dotted(c.func) or '').split('.')[-1].startswith(
+                           '_optimize_core') for c in ast.walk(st))
+
+        def is_refresh(st, kv):
+            def next_slot(x):
+                return isinstance(x, ast.Subscript) and \
+                    isinstance(x.slice, ast.BinOp) and \
+                    isinstance(x.slice.op, (ast.Add, ast.Sub)) and \
+                    isinstance(x.slice.left, ast.Name) and \
+                    x.slice.left.id == kv and \
+                    isinstance(x.slice.right, ast.Constant) and \
+                    x.slice.right.value == 1
+            for c in ast.walk(st):
+                if isinstance(c, ast.Call):
+                    for k_ in c.keywords:
+                        if k_.arg == 'out' and next_slot(k_.value):
+                            return True
+            if isinstance(st, ast.Assign) and next_slot(st.targets[0]) and \
+                    isinstance(st.value, ast.Call):
+                return True
+            return False
+        n_loops = 0
+        inner = []
+        for c in ast.walk(fn_.node):
+            if isinstance(c, ast.Call) and \
+                    (prog.dotted(c.func) or '').split('.')[-1].startswith(
+                        '_optimize_core'):
+                lp_ = _enclosing(c, (ast.For, ast.While))
+                if lp_ is not None and lp_ not in inner:
+                    inner.append(lp_)
+        for lp in inner:
+            if not (isinstance(lp, ast.For) and
+                    isinstance(lp.target, ast.Name)):
+                continue
+            n_loops += 1
+            fake = ast.FunctionDef(name='step', args=None, body=[lp],
+                                   decorator_list=[])
+            bad = None
+            n_paths = 0
+            for path in paths.paths(fake):
+                evs = [e for e in path if e.kind == 'stmt']
+                if not any(e.kind == 'loop' and e.pol for e in path):
+                    continue
+                upd = [i for i, e in enumerate(evs) if is_update(e.node)]
+                if not upd:
+                    continue
+                n_paths += 1
+                if isinstance(path[-1].node, (ast.Raise, ast.Return)):
+                    continue
+                after = evs[upd[-1]:]
+                if not any(is_refresh(e.node, lp.target.id) for e in after):
+                    bad = path
+            rep.add('P-refresh', qual_, 'sweep loop over %s: the next '
+                    'interface is refreshed after the core update on every '
+                    'path (%d paths)' % (paths.src(fn_.module, lp.iter),
+                                         n_paths),
+                    'ok' if bad is None else 'violation',
+                    '' if bad is None else 'a path through the sweep step '
+                    'updates the core but leaves the loop body without '
+                    'recomputing the interface of the next core (tests taken: '
+                    '%s)' % ', '.join('%s=%s' % (paths.src(fn_.module, e.node),
+                                                 e.pol)
+                                      for e in bad if e.kind == 'test'
+                                      and isinstance(e.node, ast.expr)),
+                    line=lp.lineno, file=fn_.module.path)
     # --- P-validate
     fn = prog.func('als.als')
     mod = fn.module
@@ -269,6 +343,9 @@ def check(an, rep, tier):
     _callers = {f.qualname for f in prog.all_functions()
                 if f.module.name in ('als', 'als_func')}
     _RP.check_param_forwarding(prog, rep, callers=_callers)
+    from .. import rules_proto as _RPZ
+    _RPZ.check_none_vs_zero(prog, rep, modules={'als', 'als_func'})
+    rep.floor('P-refresh', 3, 'interface refresh per sweep step')
     rep.floor('K-empty', 1, 'emptiness tests')
     rep.floor('S-einsum-out', 3, 'interface updates')
     rep.floor('S-ret', 4, 'constant-rank results')
